@@ -1256,7 +1256,9 @@ func (m *MapPollard) GetHash(pos uint64) Hash {
 	m.rwLock.RLock()
 	defer m.rwLock.RUnlock()
 
-	if m.TotalRows != TreeRows(m.NumLeaves) {
+	// Only positions of the minimal geometry are translated. Anything bigger
+	// would wrap around and alias an unrelated node.
+	if m.TotalRows != TreeRows(m.NumLeaves) && pos <= maxPosition(TreeRows(m.NumLeaves)) {
 		pos = translatePos(pos, TreeRows(m.NumLeaves), m.TotalRows)
 	}
 	leaf, _ := m.Nodes.Get(pos)
